@@ -58,7 +58,7 @@ def run(res, tier, seed, replay):
     bg = ThreadPoolExecutor(3)
     vfut = [] if replay else [bg.submit(vg, w) for w in ["vg-verify", "vg-decrypt", "vg-zero"]]
     nkeys = 4 if tier == "quick" else 8
-    parts = ["g"] + ["k%d" % i for i in range(nkeys)]
+    parts = ["g", "o"] + ["n%d" % i for i in range(4)] + ["k%d" % i for i in range(nkeys)]
     if replay and replay.get("replay", {}).get("record"):
         outs = [("replay", seed, replay["replay"]["record"] + "\n")]
     else:
@@ -93,7 +93,7 @@ def run(res, tier, seed, replay):
         return res_
     items = []
     for part, s, out in outs:
-        n = 1 if part == "g" else (3 if tier == "quick" else 6)
+        n = 1 if part[0] in "gon" else (3 if tier == "quick" else 6)
         for c in chunks(out, n):
             items.append((part, s, c))
     def corr(item):
